@@ -12,7 +12,7 @@ require (
 	github.com/anishathalye/porcupine v1.3.0
 	github.com/bluenviron/mediacommon/v2 v2.9.3
 	github.com/google/uuid v1.6.0 // indirect
-	github.com/gorilla/websocket v1.5.3 // indirect
+	github.com/gorilla/websocket v1.5.3
 	github.com/pion/logging v0.2.4 // indirect
 	github.com/pion/randutil v0.1.0 // indirect
 	github.com/pion/sdp/v3 v3.0.19
